@@ -38,3 +38,37 @@ package clos
 //@ func clos.(*SetSynchronized).Call
 //@   property C17
 //@   on-call SetSynchronized keeps-live-mutex: $arg0 ==> !Synchronized(inst)
+
+// C12: a new instance gets every slot of its class: the class's own slot
+// definitions first, an inherited definition only for a slot that is still
+// missing (so the most specific initform wins whatever the order in which the
+// superclasses were defined); class-allocated slots are not instance slots.
+//@ func clos.(*StandardClass).initObjSlots
+//@   property C12
+//@   on-map-update vars#1 own-slot-definition: !sd.classStore && $key == k && $value == sd.initform
+//@   on-map-update vars#2 inherited-only-if-missing: !$had && !sd.classStore && $key == k && $value == sd.initform
+//@ func clos.(*StandardClass).MakeInstance
+//@   property C12
+//@   ensures fresh-instance: fresh(result0)
+
+// writing a slot: instance slots go to the instance, under the slot's name.
+//@ func clos.(*StandardObject).setSlot
+//@   property C12
+//@   on-map-update vars instance-slot: !sd.classStore && $key == sd.name && $value == value
+
+// change-class: a slot the two classes share keeps its value, a new slot takes
+// its value from a matching initarg or else from the initform of its definition.
+//@ func clos.(*ChangeClass).Call
+//@   property C12
+//@   on-map-update vars#1 shared-slot-keeps-value: has && $key == name && $value == v
+//@   on-map-update vars#2 new-slot-from-initarg: has && $key == name && $value == v
+//@   on-map-update vars#3 new-slot-from-initform: !inited && $key == name && $value == sd.initform
+
+// slot accessors read and write the slot they were defined for.
+//@ func clos.(readSlot).Call
+//@   property C12
+//@   on-call SlotValue own-slot: $arg0 == rs
+//@ func clos.(writeSlot).Call
+//@   property C12
+//@   on-call SetSlotValue own-slot: $arg0 == ws && $arg1 == args[1]
+//@   ensures returns-the-value: value == args[1]
